@@ -457,11 +457,11 @@ def atheris_campaign(ctx):
 
 
 def run(ctx):
-    ctx.search('prefix', files, prefix_prop, ctx.pick(32, 400), shrink=False)
-    ctx.search('mutant', mutants, mutant_prop, ctx.pick(8000, 200000))
-    ctx.search('exactline', exact_line_cases, exact_line_prop, ctx.pick(4000, 100000))
-    ctx.search('noise', noise, noise_prop, ctx.pick(6000, 150000))
-    ctx.search('compile', mutants, compile_prop, ctx.pick(1500, 30000))
+    ctx.search('prefix', files, prefix_prop, ctx.pick(24, 400), shrink=False)
+    ctx.search('mutant', mutants, mutant_prop, ctx.pick(6000, 200000))
+    ctx.search('exactline', exact_line_cases, exact_line_prop, ctx.pick(3000, 100000))
+    ctx.search('noise', noise, noise_prop, ctx.pick(4000, 150000))
+    ctx.search('compile', mutants, compile_prop, ctx.pick(1000, 30000))
     probes(ctx)
     if ctx.tier == 'thorough':
         atheris_campaign(ctx)
